@@ -642,6 +642,17 @@ func (w *World) VerifyFunc(fn *ssa.Function) *VC {
 		vc.Assume(t)
 		preTerms = append(preTerms, t)
 	}
+	for _, a := range fc.Assumes {
+		pre.Scope = fc.ScopePkg
+		t, err := pre.EvalBool(a)
+		if err != nil {
+			f.fail("assumes: %v", err)
+			continue
+		}
+		vc.Trusted["assumed on entry of "+label+" (not checked at call sites): "+a.Src] = true
+		vc.Assume(t)
+		preTerms = append(preTerms, t)
+	}
 	// the function's own frame (used for the automatic loop frame invariants)
 	if !ec.modAll {
 		fms := newModSet()
@@ -668,7 +679,7 @@ func (w *World) VerifyFunc(fn *ssa.Function) *VC {
 		}
 	}
 	// vacuity guard: the precondition must be satisfiable
-	if len(ec.requires) > 0 {
+	if len(ec.requires)+len(fc.Assumes) > 0 {
 		cov := vc.Oblige(label, "cover", "entry", True, True, "precondition is satisfiable")
 		cov.Negate = true
 		cov.Trivial = false
